@@ -496,6 +496,9 @@ def families():
     # a non-last cell whose sibling branches have different compartment counts: its level is padded inside the
     # network's solve layout, and the next cell must land behind the padding
     pad_a, pad_b = {"parents": [-1, 0, 0], "ncomps": [1, 2, 1]}, {"parents": [-1, 0, 0], "ncomps": [1, 2, 2]}
+    # two cells with identical per-branch compartment counts but different tree shapes (anything cached per layout must not be shared)
+    same_a, same_b = {"parents": [-1, 0, 0], "ncomps": [1, 1, 1]}, {"parents": [-1, 0, 1], "ncomps": [1, 1, 1]}
+    nets += [{"kind": "network", "cells": [same_a, same_b]}] + ([] if quick else [{"kind": "network", "cells": [same_b, same_a]}])
     nets += [{"kind": "network", "cells": [pad_a, pad_b]}] + ([] if quick else [{"kind": "network", "cells": [pad_b, pad_a]}, {"kind": "network", "cells": [pad_a, pad_a, pad_b]}])
     specs += nets
     insts = []
